@@ -133,6 +133,9 @@ func (a *agg) add(r harness.Record, prop string, known *knownFile) {
 	if o.Sample != nil && len(a.samples) < 4 {
 		a.samples = append(a.samples, o.Sample)
 	}
+	for what, n := range o.KnownHits {
+		a.known[what] += n
+	}
 	if o.Violation != nil {
 		if what, ok := known.match(prop, o.Violation); ok {
 			a.known[what]++
@@ -160,6 +163,7 @@ func runWorker(ctx context.Context, bin, prop, tier string, seed uint64, from, t
 		"-sim.prop="+prop, "-sim.tier="+tier, "-sim.seed="+strconv.FormatUint(seed, 10),
 		"-sim.from="+strconv.Itoa(from), "-sim.to="+strconv.Itoa(to), "-sim.out="+out,
 		"-sim.keepplans="+strconv.Itoa(keepPlans),
+		"-sim.known="+filepath.Join(verifDir, "KNOWN_FINDINGS.json"),
 		"-sim.work="+filepath.Join(workDir(), "runs"))
 	cmd.Env = workerEnv()
 	cmd.Dir = verifDir
